@@ -23,8 +23,10 @@ def build(run):
              claim="fill-range highlighting applies highlight() to arbitrary chars: always a valid scalar value"),
         dict(id="K-C20-b.lookback_nemeth", harness="lookback_nemeth_bounded", covers=["two indicator cells counted", "longest prefix reachable"],
              role=lambda v, o: "nemeth-prefix", api=bk.api_nemeth_double_cap, claim="i_start_nemeth(prefix, first) <= cells in prefix (start_index - 3*r cannot underflow)"),
+        # 95-280 s of solver time (it varies that much with the load of the machine; 2 cells instead of 3 is no cheaper): thorough tier only.
+        # In the quick tier i_start_ueb still runs on the literal prefixes of K-C20-e's UEB cases
         dict(id="K-C20-b.lookback_ueb", harness="lookback_ueb_bounded", covers=["two indicator cells counted", "longest prefix reachable"],
-             role=lambda v, o: "ueb-prefix", claim="i_start_ueb(prefix) <= cells in prefix"),
+             role=lambda v, o: "ueb-prefix", claim="i_start_ueb(prefix) <= cells in prefix", deep=True),
     ]
     run.kani(c, lemmas)
     crate_d, lemma_d = restore_lemma(run)
@@ -250,8 +252,9 @@ def positions_lemma(run):
         n = len(res[2][1])
         s, e = [int(x) for x in res[4][1].split("\t")]
         return not (s <= e <= n), {"script": "UEB 2(invisible times)x: navigation node = the invisible operator (no cell of its own); get_braille_position", "braille_cells": n, "position": [s, e]}
+    deep = ("endpoints", "after_indicator")      # 115-300 s of solver time each: thorough tier only; the other five strings stay in the quick tier
     return crate, [dict(id="K-C20-e.highlight_positions." + c[0], harness="highlight_positions_" + c[0], api=api, role=lambda v, o: "position-outside-braille",
-                        covers=["fill range in Nemeth reachable"],
+                        covers=["fill range in Nemeth reachable"], deep=c[0] in deep,
                         claim="start <= end <= number of cells; end = last cell with dots 7-8; nothing highlighted => (0, length)") for c in cases] + \
         [dict(id="K-C20-e.highlight_positions." + c[0], harness="highlight_positions_" + c[0], api=lambda v, o: api_mixed(), role=lambda v, o: "untranslated-text-in-braille-panic",
               covers=["fill range in Nemeth reachable"], claim="no panic and no character lost when the braille also holds non-braille characters") for c in mixed]
